@@ -177,13 +177,13 @@ def gen_cases(rng, tier):
             for seq in itertools.product(alpha, repeat=n):
                 cases.append({"u": u, "ev": [list(e) for e in seq], "cls": f"all/{u}", "chk": "final"})
     # (b) all kernel-admissible sequences, deeper (the monitor's domain)
-    for u, L in (("u1", 6 if quick else 8), ("u2", 5 if quick else 6)):
+    for u, L in (("u1", 7 if quick else 8), ("u2", 6 if quick else 7)):
         for d in range((5 if u == "u1" else 4), L + 1):
             for h in admissible_histories(u, d):
                 # the monitor looks at every step, so only the deepest level needs it
                 cases.append({"u": u, "ev": h, "cls": f"adm/{u}", "chk": "final", "mon": d == L})
     # (c) random long histories over the larger universe, checked after every event
-    for _ in range(250 if quick else 4000):
+    for _ in range(500 if quick else 5000):
         cases.append({"u": "ur", "ev": random_history(rng, rng.choice([12, 30, 30, 40])), "cls": "rand/ur", "chk": "all"})
     return cases
 
@@ -419,9 +419,11 @@ def monitor(c, o):
             seen.add(sig)
             fails.append((sig, f"after event {step_no} of {c['ev']}: {text}"))
 
+    monitor.judged = 0
     for step_no, (ev, s) in enumerate(zip(c["ev"], o["steps"]), 1):
         if not k.admissible(ev):
             break
+        monitor.judged = step_no
         # history facts
         if ev[0] == "NR" and IFS[ev[3]][2]:
             p, nh, i = ev[1], ev[2], ev[3]
@@ -460,6 +462,17 @@ def monitor(c, o):
                         destroy_failed.discard(mm.group(1) + "RoutesDstMAC" + mm.group(2))
         poisoned = False
         displaced = set()     # MACs of next hops whose route was overwritten by a stale pending route at this step
+        # (iface id, prefix id) written into a lookup table at THIS step, a NEWNEIGH event, although that route was
+        # deleted from the kernel while this very next hop was unresolved: the shape of the known finding F29b
+        stale_adds = set()
+        if ev[0] == "NN":
+            for call in s["calls"]:
+                if call[0] == "cmd_add" and call[-1] == 0 and call[1].endswith("Routes") and call[1][:-6] in IF_ID:
+                    dst, _, rest = call[2].partition("/")
+                    ln = rest.split(">")[0]
+                    pid = PFX_ID.get((dst, int(ln))) if ln.isdigit() else None
+                    if pid is not None and (IF_ID[call[1][:-6]], pid, ev[1]) in deleted_pending:
+                        stale_adds.add((IF_ID[call[1][:-6]], pid))
         installed = {}        # prefix -> gate for kernel routes present in their interface's table
         # mirror, completeness: kernel route with known MAC => installed
         for p, (nh, i) in sorted(k.routes.items()):
@@ -481,8 +494,7 @@ def monitor(c, o):
             kr = k.routes.get(p) if p is not None else None
             ok = kr is not None and ifn == IFS[kr[1]][1] and kr[0] in k.neigh
             if not ok:
-                cause = [d for d in deleted_pending if IFS[d[0]][1] == ifn and d[1] == p and d[2] in k.neigh]
-                if cause:
+                if ifn in IF_ID and (IF_ID[ifn], p) in stale_adds:
                     poisoned = True
                     fail("stale-pending-route-installed",
                          f"{m} holds {dst}/{ln} -> gate {g} but the kernel has no such route "
@@ -498,12 +510,11 @@ def monitor(c, o):
             want = mac_int(MACS[k.neigh[nh]]) if nh in k.neigh else None
             good = tgt is not None and tgt[0] in mods and mods[tgt[0]][0] == "Update" and mods[tgt[0]][1] == want
             if not good:
-                stale = [d for d in deleted_pending if d[0] == i and d[1] == p and d[2] != nh and d[2] in k.neigh]
-                if stale:
+                if (i, p) in stale_adds:
                     poisoned = True
                     displaced.add(want)
                     fail("stale-pending-route-installed",
-                         f"route {PFX[p]} via {NHS[nh]} uses gate {g} of {name}Routes, which belongs to {NHS[stale[0][2]]}: "
+                         f"route {PFX[p]} via {NHS[nh]} uses gate {g} of {name}Routes, which belongs to {NHS[ev[1]]}: "
                          f"a route for the same prefix deleted while pending was installed over it")
                 elif len(nh_ifaces.get(nh, ())) > 1:
                     poisoned = True
@@ -521,8 +532,7 @@ def monitor(c, o):
             per_nh.setdefault((nh, i), []).append((p, g, tgt[0] if tgt else None))
         for (nh, i), lst in sorted(per_nh.items()):
             if len({g for _, g, _ in lst}) > 1 or len({u for _, _, u in lst}) > 1:
-                stale = [d for d in deleted_pending if d[0] == i and d[2] != nh and d[2] in k.neigh and d[1] in [p for p, _, _ in lst]]
-                if stale:
+                if any((i, p) in stale_adds for p, _, _ in lst):
                     poisoned = True
                     fail("stale-pending-route-installed", f"routes via {NHS[nh]} on {IFS[i][1]} use different gates/modules: {lst}")
                 else:
@@ -537,8 +547,7 @@ def monitor(c, o):
                 g2 = {g for _, g, _ in per_nh[keys[b]]}
                 if g1 & g2:
                     ps = [p for p, _, _ in per_nh[keys[a]] + per_nh[keys[b]]]
-                    stale = [d for d in deleted_pending if d[0] == i1 and d[1] in ps and d[2] in k.neigh]
-                    if stale:
+                    if any((i1, p) in stale_adds for p in ps):
                         poisoned = True
                         fail("stale-pending-route-installed",
                              f"{NHS[nh1]} and {NHS[nh2]} share gate {sorted(g1 & g2)} of {IFS[i1][1]}Routes")
@@ -568,7 +577,15 @@ def monitor(c, o):
                      f"module {name} ({cls}) is used by no installed route; the controller tried to destroy {shadow}, which does not exist")
             else:
                 fail("update-module-unused", f"module {name} ({cls}) is used by no installed route")
-        if poisoned:
+        if any(len(v) > 1 and nh_ in k.neigh for nh_, v in nh_ifaces.items()):
+            # a resolved next hop is now in use on two managed interfaces (F36): its single cache entry (gate, count)
+            # serves both, so gates and reference counts are off from here on, whether or not a sentence failed yet
+            poisoned = True
+        if poisoned or stale_adds:
+            # a route the kernel no longer has was written into a table at this step (F29b).  If a sentence of C20
+            # fails here it has been reported above; if none does yet (the stale route sits on top of a live route
+            # whose next hop happens to have the same MAC) nothing is reported, but reference counts and gates are
+            # off from here on, so the rest of this history is not judged.
             break
     return fails
 
@@ -593,8 +610,9 @@ def run(tier, seed, replay=None):
         "reconfigure (SIGHUP) and bootstrap_routes are outside the modelled event set",
     ]
     ck.rule = ("(a) ALL sequences over {NEWROUTE,DELROUTE} x 2 prefixes x 2 next hops x interfaces + NEWNEIGH x 2: length <= 4 (5 thorough) on one "
-               "managed interface, <= 3 (4) on two; (b) all kernel-admissible sequences of length 5..6 (..8) resp. 4..5 (..6); (c) seeded random "
-               "histories of 12-40 events over 4 prefixes, 3 next hops (one sharing a MAC), 2 managed + 1 unmanaged interface, noise and "
+               "managed interface, <= 3 (4) on two, final state compared; (b) all kernel-admissible sequences of length 5..7 (..8) resp. 4..6 (..7), "
+               "one per renaming class of prefixes / next hops / interfaces, final state compared, monitor on every step; (c) 500 (5000) seeded "
+               "random histories of 12-40 events over 4 prefixes, 3 next hops (one sharing a MAC), 2 managed + 1 unmanaged interface, noise and "
                "inadmissible events, compared after every event. non-trivial = >= 2 events and a route installed at some point; "
                "distinct = distinct (universe, event list)")
     ck.prove(TARGETS)
@@ -615,9 +633,13 @@ def run(tier, seed, replay=None):
     ck.tie("python harness imports and drives conf/route_control.py of the current tree", True)
     dist = {}
     sigs = {}
+    judged, total = {}, {}
     for c, o in zip(cases, obs):
         ck.count([c["u"], c["ev"]], nontrivial(c, o))
         ms = monitor(c, o) if c.get("mon", True) else []
+        if c.get("mon", True):
+            judged[c["cls"]] = judged.get(c["cls"], 0) + monitor.judged
+            total[c["cls"]] = total.get(c["cls"], 0) + len(c["ev"])
         key = c["cls"] + ":" + ("fails" if ms else "holds")
         dist[key] = dist.get(key, 0) + 1
         for sig, text in ms:
@@ -625,6 +647,7 @@ def run(tier, seed, replay=None):
             ck.fail(sig, text, {"input": {"u": c["u"], "ev": c["ev"], "cls": c["cls"]}, "impl_last_step": o["steps"][-1] if o["steps"] else None})
     ck.distribution = dist
     ck.notes["monitor_signatures"] = sigs
+    ck.notes["monitor_steps_judged_of_total"] = {k_: [judged[k_], total[k_]] for k_ in sorted(judged)}
     ck.samples = [{"input": c, "impl_last_step": o["steps"][-1]} for c, o in list(zip(cases, obs))[-2:] if o["steps"]]
     if replay is not None:
         print(json.dumps({"input": cases[0], "impl": obs[0], "monitor": monitor(cases[0], obs[0])}, indent=1))
